@@ -21,6 +21,10 @@ import NurbsVerif.Lemmas.RatSurfTrue
 import NurbsVerif.Lemmas.UniqueLocal
 import NurbsVerif.Lemmas.HodographObject
 import NurbsVerif.Lemmas.DersOnDomain
+import NurbsVerif.Lemmas.RatTangent
+import NurbsVerif.Lemmas.RatTangentNorm
+import NurbsVerif.Lemmas.RatTangentReal
+import NurbsVerif.Lemmas.RatTangentWitness
 
 /-!
 # C02  Derivatives returned are the true derivatives of the shape  (statements so far)
@@ -54,6 +58,16 @@ SAME parameter the object is not the derivative, finding F-02c).  Tangent / norm
 `tangent_curve_is_point_and_first_derivative`, `tangent_surface_is_point_and_partials`,
 `normal_surface_is_cross_product_of_partials` (non-rational, at a given span), `tangent_curve_on_domain`,
 `tangent_rational_curve_on_domain`, `tangent_surface_on_domain`, `normal_surface_on_domain` (through the span search).
+Rational tangent / normal (ops `tanc 1`, `tans 1`, `nrms 1`): `rational_tangent_is_quotient_rule`,
+`tangent_rational_surface_on_domain`, `rational_surface_tangent_is_quotient_rule`, `normal_rational_surface_on_domain`;
+the quotient-rule expression is the derivative (`quotient_rule_solves_leibniz_equations`,
+`quotient_rule_is_polynomial_derivative_when_divisible`; over `ℝ` with Mathlib's `HasDerivAt`:
+`rational_tangent_is_derivative_of_quotient_real`, `rational_surface_tangents_are_partial_derivatives_of_quotient_real`).
+`normalize=True` (models `tangentCurveN`, `tangentSurfaceN`, `normalSurfaceN` with the magnitudes as inputs; ops `tancn`,
+`tansn`, `nrmsn`): `normalized_vector_is_unit_positive_multiple`, `normalize_refuses_exactly_the_zero_vector`,
+`tangent_curve_normalized`, `tangent_surface_normalized`, `normal_surface_normalized` (+ `…_refused_iff_…`), end to end
+for rational shapes `normalized_tangent_rational_curve_on_domain`, `normalized_tangent_rational_surface_on_domain`,
+`normalized_normal_rational_surface_on_domain`.
 -/
 namespace C02
 open Geomdl Blossom Polynomial
@@ -824,7 +838,266 @@ theorem a37_as_coded_entry_values (pu pv : ℕ) (Uu Uv : ℕ → F) (su sv : ℕ
         = dIter Uv pv l (fun y => dIter Uu pu k (fun x => netCoord sv P c x y) (r1 + i + k)) (s1 + j + l) :=
   a37_entry pu pv Uu Uv su sv P r1 n s1 m order d hr hs hlen hP hdu hdv k l i j hk hl hi hj
 
+/-! ### tangent / normal of RATIONAL curves and surfaces (ops `tanc 1 …`, `tans 1 …`, `nrms 1 …`) -/
+
+/-- **Rational curve tangent, quotient-rule form.**  `operations.tangent(curve, u, normalize=False)` of a NURBS curve
+    with positive weights as the op `tanc 1 …` runs it (A3.2 as coded on the span `κ` that `find_span_linear` returns,
+    A4.2, `(ders[0], ders[1])`), every `u` of the closed domain: with `w` the weight polynomial and `A` the numerator
+    polynomial of coordinate `j` on that span, `w(u) > 0`, the point is `A(u) / w(u)` (C01's rational point) and the
+    vector is `(A'(u)·w(u) − A(u)·w'(u)) / w(u)²` – Mathlib's `Polynomial.derivative`, the quotient rule as a field
+    identity.  (Leibniz form `w·T + w'·C = A'`: `tangent_rational_curve_on_domain`.) -/
+theorem rational_tangent_is_quotient_rule (p d : ℕ) (Ul : List F) (Pw : List (List F))
+    (hC : CurveWF p (d+1) Ul Pw) (hwt : ∀ i, i < Pw.length → 0 < (ptsGet Pw i).getD d 0) (u : F)
+    (h1 : fnOf Ul p ≤ u) (h2 : u ≤ fnOf Ul Pw.length) (j : ℕ) (hj : j < d)
+    (κ : ℕ) (hκ : κ = findSpanLinear p (fnOf Ul) Pw.length u) (w A : F[X])
+    (hw : w = spanPoly p (fnOf Ul) Pw κ d) (hA : A = spanPoly p (fnOf Ul) Pw κ j) :
+    0 < eval u w ∧
+    (tangentCurve (ratCurveDers (curveDersA32 p (fnOf Ul) Pw κ u 1))).1.getD j 0 = eval u A / eval u w ∧
+    (tangentCurve (ratCurveDers (curveDersA32 p (fnOf Ul) Pw κ u 1))).2.getD j 0
+      = (eval u (derivative A) * eval u w - eval u A * eval u (derivative w)) / eval u w ^ 2 :=
+  tangentCurve_rational_quotient p d Ul Pw hC hwt u h1 h2 j hj κ hκ w A hw hA
+
+/-- The quotient-rule values and the first two Leibniz equations are the same thing: for `w ≠ 0` the pair
+    `(a/w, (a'·w − a·w')/w²)` solves `w·c = a`, `w·t + w'·c = a'`, and it is the only solution. -/
+theorem quotient_rule_solves_leibniz_equations (w w' a a' : F) (hw : w ≠ 0) :
+    (w * (a / w) = a ∧ w * ((a' * w - a * w') / w ^ 2) + w' * (a / w) = a') ∧
+    ∀ c t, w * c = a → w * t + w' * c = a' → c = a / w ∧ t = (a' * w - a * w') / w ^ 2 :=
+  ⟨leibniz_of_quotient_rule w w' a a' hw, fun c t h0 h1 => quotient_rule_of_leibniz w w' a a' c t hw h0 h1⟩
+
+/-- The quotient-rule expression is a DERIVATIVE, not merely the solution of a linear system: whenever the quotient
+    is itself a polynomial (`A = Q·w`), it equals Mathlib's derivative of that polynomial at `u`.  (For a genuine
+    rational function over `ℝ`: `rational_tangent_is_derivative_of_quotient_real`.) -/
+theorem quotient_rule_is_polynomial_derivative_when_divisible (A Q w : F[X]) (u : F) (hA : A = Q * w)
+    (hw : eval u w ≠ 0) :
+    (eval u (derivative A) * eval u w - eval u A * eval u (derivative w)) / eval u w ^ 2 = eval u (derivative Q) :=
+  quotient_rule_polynomial A Q w u hA hw
+
+/-- **Rational surface tangent.**  `operations.tangent(surface, (u, v), normalize=False)` of a NURBS surface with
+    positive weights as the op `tans 1 …` runs it (A3.6 as coded on the span pair the two searches return, A4.4, the
+    entries `[0][0]`, `[1][0]`, `[0][1]`), every `(u, v)` of the closed domain: with `W` the bivariate weight polynomial
+    and `A` the numerator polynomial of coordinate `c` on that span pair, `W(u,v) > 0`, and the returned point `S` and
+    vectors `S_u`, `S_v` satisfy `W·S = A`, `W·S_u + W_u·S = A_u`, `W·S_v + W_v·S = A_v` (`pderivU`, `pderivV` = the true
+    partial derivatives in `F[X][Y]`). -/
+theorem tangent_rational_surface_on_domain (pu pv : ℕ) (Uu Uv : ℕ → F) (su sv : ℕ) (Pw : List (List F)) (u v : F)
+    (d c : ℕ) (hUu : KnotsOk pu Uu su) (hUv : KnotsOk pv Uv sv) (hlen : Pw.length = su * sv) (hP : NetOk (d+1) Pw)
+    (hwt : ∀ i, i < Pw.length → 0 < (ptsGet Pw i).getD d 0)
+    (hu1 : Uu pu ≤ u) (hu2 : u ≤ Uu su) (hv1 : Uv pv ≤ v) (hv2 : v ≤ Uv sv) (hc : c < d)
+    (κu κv : ℕ) (hκu : κu = findSpanLinear pu Uu su u) (hκv : κv = findSpanLinear pv Uv sv v) (W A : F[X][Y])
+    (hW : W = surfSpanPoly pu pv Uu Uv sv Pw κu κv d) (hA : A = surfSpanPoly pu pv Uu Uv sv Pw κu κv c) :
+    0 < W.evalEval u v ∧
+    W.evalEval u v * (tangentSurface (ratSurfaceDers (surfaceDersA36 pu pv Uu Uv sv Pw κu κv u v 1) 1)).1.getD c 0
+      = A.evalEval u v ∧
+    W.evalEval u v * (tangentSurface (ratSurfaceDers (surfaceDersA36 pu pv Uu Uv sv Pw κu κv u v 1) 1)).2.1.getD c 0
+      + (pderivU W).evalEval u v
+        * (tangentSurface (ratSurfaceDers (surfaceDersA36 pu pv Uu Uv sv Pw κu κv u v 1) 1)).1.getD c 0
+      = (pderivU A).evalEval u v ∧
+    W.evalEval u v * (tangentSurface (ratSurfaceDers (surfaceDersA36 pu pv Uu Uv sv Pw κu κv u v 1) 1)).2.2.getD c 0
+      + (pderivV W).evalEval u v
+        * (tangentSurface (ratSurfaceDers (surfaceDersA36 pu pv Uu Uv sv Pw κu κv u v 1) 1)).1.getD c 0
+      = (pderivV A).evalEval u v :=
+  tangentSurface_rational_domain pu pv Uu Uv su sv Pw u v d c hUu hUv hlen hP hwt hu1 hu2 hv1 hv2 hc κu κv hκu hκv
+    W A hW hA
+
+/-- … quotient-rule form: `S = A/W`, `S_u = (A_u·W − A·W_u)/W²`, `S_v = (A_v·W − A·W_v)/W²` at `(u, v)`. -/
+theorem rational_surface_tangent_is_quotient_rule (pu pv : ℕ) (Uu Uv : ℕ → F) (su sv : ℕ) (Pw : List (List F))
+    (u v : F) (d c : ℕ) (hUu : KnotsOk pu Uu su) (hUv : KnotsOk pv Uv sv) (hlen : Pw.length = su * sv)
+    (hP : NetOk (d+1) Pw) (hwt : ∀ i, i < Pw.length → 0 < (ptsGet Pw i).getD d 0)
+    (hu1 : Uu pu ≤ u) (hu2 : u ≤ Uu su) (hv1 : Uv pv ≤ v) (hv2 : v ≤ Uv sv) (hc : c < d)
+    (κu κv : ℕ) (hκu : κu = findSpanLinear pu Uu su u) (hκv : κv = findSpanLinear pv Uv sv v) (W A : F[X][Y])
+    (hW : W = surfSpanPoly pu pv Uu Uv sv Pw κu κv d) (hA : A = surfSpanPoly pu pv Uu Uv sv Pw κu κv c) :
+    0 < W.evalEval u v ∧
+    (tangentSurface (ratSurfaceDers (surfaceDersA36 pu pv Uu Uv sv Pw κu κv u v 1) 1)).1.getD c 0
+      = A.evalEval u v / W.evalEval u v ∧
+    (tangentSurface (ratSurfaceDers (surfaceDersA36 pu pv Uu Uv sv Pw κu κv u v 1) 1)).2.1.getD c 0
+      = ((pderivU A).evalEval u v * W.evalEval u v - A.evalEval u v * (pderivU W).evalEval u v) / W.evalEval u v ^ 2 ∧
+    (tangentSurface (ratSurfaceDers (surfaceDersA36 pu pv Uu Uv sv Pw κu κv u v 1) 1)).2.2.getD c 0
+      = ((pderivV A).evalEval u v * W.evalEval u v - A.evalEval u v * (pderivV W).evalEval u v) / W.evalEval u v ^ 2 :=
+  tangentSurface_rational_quotient pu pv Uu Uv su sv Pw u v d c hUu hUv hlen hP hwt hu1 hu2 hv1 hv2 hc κu κv hκu hκv
+    W A hW hA
+
+/-- **Rational surface normal.**  `operations.normal(surface, (u, v), normalize=False)` of a 3-D NURBS surface as the op
+    `nrms 1 …` runs it, every `(u, v)` of the closed domain: the call succeeds, returns the point of the tangent triple
+    and the cross product of ITS two vectors (`Su c`, `Sv c` name the coordinates of the rational tangent vectors
+    characterised by the theorem above), and that vector is orthogonal to both. -/
+theorem normal_rational_surface_on_domain (pu pv : ℕ) (Uu Uv : ℕ → F) (su sv : ℕ) (Pw : List (List F)) (u v : F)
+    (hUu : KnotsOk pu Uu su) (hUv : KnotsOk pv Uv sv) (hlen : Pw.length = su * sv) (hP : NetOk (3+1) Pw)
+    (hu1 : Uu pu ≤ u) (hu2 : u ≤ Uu su) (hv1 : Uv pv ≤ v) (hv2 : v ≤ Uv sv)
+    (κu κv : ℕ) (hκu : κu = findSpanLinear pu Uu su u) (hκv : κv = findSpanLinear pv Uv sv v)
+    (Su Sv : ℕ → F)
+    (hSu : ∀ c, Su c = (tangentSurface (ratSurfaceDers (surfaceDersA36 pu pv Uu Uv sv Pw κu κv u v 1) 1)).2.1.getD c 0)
+    (hSv : ∀ c, Sv c = (tangentSurface (ratSurfaceDers (surfaceDersA36 pu pv Uu Uv sv Pw κu κv u v 1) 1)).2.2.getD c 0) :
+    ∃ n, normalSurface (ratSurfaceDers (surfaceDersA36 pu pv Uu Uv sv Pw κu κv u v 1) 1)
+        = some ((tangentSurface (ratSurfaceDers (surfaceDersA36 pu pv Uu Uv sv Pw κu κv u v 1) 1)).1, n) ∧
+      n = [Su 1 * Sv 2 - Su 2 * Sv 1, Su 2 * Sv 0 - Su 0 * Sv 2, Su 0 * Sv 1 - Su 1 * Sv 0] ∧
+      n.getD 0 0 * Su 0 + n.getD 1 0 * Su 1 + n.getD 2 0 * Su 2 = 0 ∧
+      n.getD 0 0 * Sv 0 + n.getD 1 0 * Sv 1 + n.getD 2 0 * Sv 2 = 0 :=
+  normalSurface_rational_domain pu pv Uu Uv su sv Pw u v hUu hUv hlen hP hu1 hu2 hv1 hv2 κu κv hκu hκv Su Sv hSu hSv
+
+/-! ### `normalize=True` (ops `tancn`, `tansn`, `nrmsn`; the magnitudes `vector_magnitude` computed are inputs) -/
+
+/-- **`vector_normalize` with an exact positive root.**  If `m·m = |v|²` and `m > 0`, the model of
+    `linalg.vector_normalize` returns a vector `n` of squared length exactly 1, of the same length as `v`, equal to
+    `(1/m)·v` with `1/m > 0`: parallel to `v`, same direction.  (The double `math.sqrt` returns satisfies `m·m = |v|²`
+    only up to rounding; the driver ops check it to relative `2⁻⁴⁹` and the oracle checks the unit length to that
+    accuracy.) -/
+theorem normalized_vector_is_unit_positive_multiple (v : List F) (m : F) (hmm : m * m = Lin.normSq v) (hm : 0 < m) :
+    ∃ n, Lin.vectorNormalize v m = some n ∧ Lin.normSq n = 1 ∧ n.length = v.length ∧ 0 < 1 / m ∧
+      ∀ j, n.getD j 0 = (1 / m) * v.getD j 0 :=
+  Lin.vectorNormalize_spec v m hmm hm
+
+/-- **`vector_normalize` refuses exactly the zero vector** (exact non-negative root): the model answers `none` – the
+    `ValueError("The magnitude of the vector is zero")` of the code, driver `ERR` – iff every entry of `v` is zero. -/
+theorem normalize_refuses_exactly_the_zero_vector (v : List F) (m : F) (hmm : m * m = Lin.normSq v) (hm : 0 ≤ m) :
+    Lin.vectorNormalize v m = none ↔ ∀ x ∈ v, x = 0 :=
+  Lin.vectorNormalize_none_iff v m hmm hm
+
+/-- `operations.tangent(curve, u, normalize=True)` (model `tangentCurveN`, op `tancn`) on the derivative table of ANY
+    curve, rational or not (what the un-normalised call returns is `tangentCurve ders`, characterised by
+    `tangent_curve_on_domain` / `tangent_rational_curve_on_domain`): for an exact positive root `m` of the squared length
+    of the first derivative `T`, the call returns the same point and a vector `n` with `|n|² = 1` and `m·n = T`. -/
+theorem tangent_curve_normalized (ders : List (List F)) (m : F)
+    (hmm : m * m = Lin.normSq (tangentCurve ders).2) (hm : 0 < m) :
+    ∃ n, tangentCurveN ders m = some ((tangentCurve ders).1, n) ∧ Lin.normSq n = 1 ∧
+      n.length = (tangentCurve ders).2.length ∧ ∀ j, m * n.getD j 0 = (tangentCurve ders).2.getD j 0 :=
+  tangentCurveN_spec ders m hmm hm
+
+/-- … and it is refused (the code raises `ValueError`) exactly when the first derivative vanishes. -/
+theorem tangent_curve_normalized_refused_iff_zero_derivative (ders : List (List F)) (m : F)
+    (hmm : m * m = Lin.normSq (tangentCurve ders).2) (hm : 0 ≤ m) :
+    tangentCurveN ders m = none ↔ ∀ x ∈ (tangentCurve ders).2, x = 0 :=
+  tangentCurveN_none_iff ders m hmm hm
+
+/-- `operations.tangent(surface, (u, v), normalize=True)` (model `tangentSurfaceN`, op `tansn`) on the derivative table
+    of any surface: same point, unit vectors `nu`, `nv` with `mu·nu = S_u`, `mv·nv = S_v`. -/
+theorem tangent_surface_normalized (skl : List (List (List F))) (mu mv : F)
+    (hmu : mu * mu = Lin.normSq (tangentSurface skl).2.1) (hmv : mv * mv = Lin.normSq (tangentSurface skl).2.2)
+    (hu : 0 < mu) (hv : 0 < mv) :
+    ∃ nu nv, tangentSurfaceN skl mu mv = some ((tangentSurface skl).1, nu, nv) ∧
+      Lin.normSq nu = 1 ∧ Lin.normSq nv = 1 ∧
+      nu.length = (tangentSurface skl).2.1.length ∧ nv.length = (tangentSurface skl).2.2.length ∧
+      (∀ j, mu * nu.getD j 0 = (tangentSurface skl).2.1.getD j 0) ∧
+      (∀ j, mv * nv.getD j 0 = (tangentSurface skl).2.2.getD j 0) :=
+  tangentSurfaceN_spec skl mu mv hmu hmv hu hv
+
+/-- … refused exactly when one of the two first partial derivative vectors vanishes (e.g. along a pole edge). -/
+theorem tangent_surface_normalized_refused_iff_zero_partial (skl : List (List (List F))) (mu mv : F)
+    (hmu : mu * mu = Lin.normSq (tangentSurface skl).2.1) (hmv : mv * mv = Lin.normSq (tangentSurface skl).2.2)
+    (hu : 0 ≤ mu) (hv : 0 ≤ mv) :
+    tangentSurfaceN skl mu mv = none ↔
+      (∀ x ∈ (tangentSurface skl).2.1, x = 0) ∨ (∀ x ∈ (tangentSurface skl).2.2, x = 0) :=
+  tangentSurfaceN_none_iff skl mu mv hmu hmv hu hv
+
+/-- `operations.normal(surface, (u, v), normalize=True)` (model `normalSurfaceN`, op `nrmsn`) on any derivative table
+    whose un-normalised normal `nrm` exists: same point, a vector `n` with `|n|² = 1` and `m·n = nrm`. -/
+theorem normal_surface_normalized (skl : List (List (List F))) (pt nrm : List F) (m : F)
+    (h : normalSurface skl = some (pt, nrm)) (hmm : m * m = Lin.normSq nrm) (hm : 0 < m) :
+    ∃ n, normalSurfaceN skl m = some (pt, n) ∧ Lin.normSq n = 1 ∧ n.length = nrm.length ∧
+      ∀ j, m * n.getD j 0 = nrm.getD j 0 :=
+  normalSurfaceN_spec skl pt nrm m h hmm hm
+
+/-- … refused exactly when the cross product vanishes (the two tangent vectors are linearly dependent). -/
+theorem normal_surface_normalized_refused_iff_zero_normal (skl : List (List (List F))) (pt nrm : List F) (m : F)
+    (h : normalSurface skl = some (pt, nrm)) (hmm : m * m = Lin.normSq nrm) (hm : 0 ≤ m) :
+    normalSurfaceN skl m = none ↔ ∀ x ∈ nrm, x = 0 :=
+  normalSurfaceN_none_iff skl pt nrm m h hmm hm
+
+/-- **Normalised tangent of a rational curve, end to end** (op `tancn 1 …`: span search, A3.2 as coded, A4.2,
+    `vector_normalize`), closed domain, positive weights, exact positive root `m`: the call returns a point `pt` and a
+    vector `n` with `|n|² = 1`, `w(u) > 0`, `w·pt = A` and `w·(m·n) + w'·pt = A'` – `pt` is the rational point and `n` is
+    the derivative of the quotient `A/w` divided by its length `m`. -/
+theorem normalized_tangent_rational_curve_on_domain (p d : ℕ) (Ul : List F) (Pw : List (List F))
+    (hC : CurveWF p (d+1) Ul Pw) (hwt : ∀ i, i < Pw.length → 0 < (ptsGet Pw i).getD d 0) (u : F)
+    (h1 : fnOf Ul p ≤ u) (h2 : u ≤ fnOf Ul Pw.length) (j : ℕ) (hj : j < d)
+    (κ : ℕ) (hκ : κ = findSpanLinear p (fnOf Ul) Pw.length u) (w A : F[X])
+    (hw : w = spanPoly p (fnOf Ul) Pw κ d) (hA : A = spanPoly p (fnOf Ul) Pw κ j)
+    (m : F) (hmm : m * m = Lin.normSq (tangentCurve (ratCurveDers (curveDersA32 p (fnOf Ul) Pw κ u 1))).2)
+    (hm : 0 < m) :
+    ∃ pt n, tangentCurveN (ratCurveDers (curveDersA32 p (fnOf Ul) Pw κ u 1)) m = some (pt, n) ∧
+      Lin.normSq n = 1 ∧ 0 < eval u w ∧ eval u w * pt.getD j 0 = eval u A ∧
+      eval u w * (m * n.getD j 0) + eval u (derivative w) * pt.getD j 0 = eval u (derivative A) :=
+  tangentCurveN_rational_domain p d Ul Pw hC hwt u h1 h2 j hj κ hκ w A hw hA m hmm hm
+
+/-- **Normalised tangent of a rational surface, end to end** (op `tansn 1 …`), exact positive roots `mu`, `mv`. -/
+theorem normalized_tangent_rational_surface_on_domain (pu pv : ℕ) (Uu Uv : ℕ → F) (su sv : ℕ) (Pw : List (List F))
+    (u v : F) (d c : ℕ) (hUu : KnotsOk pu Uu su) (hUv : KnotsOk pv Uv sv) (hlen : Pw.length = su * sv)
+    (hP : NetOk (d+1) Pw) (hwt : ∀ i, i < Pw.length → 0 < (ptsGet Pw i).getD d 0)
+    (hu1 : Uu pu ≤ u) (hu2 : u ≤ Uu su) (hv1 : Uv pv ≤ v) (hv2 : v ≤ Uv sv) (hc : c < d)
+    (κu κv : ℕ) (hκu : κu = findSpanLinear pu Uu su u) (hκv : κv = findSpanLinear pv Uv sv v) (W A : F[X][Y])
+    (hW : W = surfSpanPoly pu pv Uu Uv sv Pw κu κv d) (hA : A = surfSpanPoly pu pv Uu Uv sv Pw κu κv c)
+    (mu mv : F)
+    (hmu : mu * mu
+      = Lin.normSq (tangentSurface (ratSurfaceDers (surfaceDersA36 pu pv Uu Uv sv Pw κu κv u v 1) 1)).2.1)
+    (hmv : mv * mv
+      = Lin.normSq (tangentSurface (ratSurfaceDers (surfaceDersA36 pu pv Uu Uv sv Pw κu κv u v 1) 1)).2.2)
+    (hu : 0 < mu) (hv : 0 < mv) :
+    ∃ pt nu nv, tangentSurfaceN (ratSurfaceDers (surfaceDersA36 pu pv Uu Uv sv Pw κu κv u v 1) 1) mu mv
+        = some (pt, nu, nv) ∧
+      Lin.normSq nu = 1 ∧ Lin.normSq nv = 1 ∧ 0 < W.evalEval u v ∧
+      W.evalEval u v * pt.getD c 0 = A.evalEval u v ∧
+      W.evalEval u v * (mu * nu.getD c 0) + (pderivU W).evalEval u v * pt.getD c 0 = (pderivU A).evalEval u v ∧
+      W.evalEval u v * (mv * nv.getD c 0) + (pderivV W).evalEval u v * pt.getD c 0 = (pderivV A).evalEval u v :=
+  tangentSurfaceN_rational_domain pu pv Uu Uv su sv Pw u v d c hUu hUv hlen hP hwt hu1 hu2 hv1 hv2 hc κu κv hκu hκv
+    W A hW hA mu mv hmu hmv hu hv
+
+/-- **Normalised normal of a rational 3-D surface, end to end** (op `nrmsn 1 …`), `m` an exact root of the squared
+    length of `S_u × S_v` (`Su`, `Sv` = coordinates of the two rational tangent vectors).  `m > 0`: the call returns the
+    point and a vector `n` with `|n|² = 1`, three coordinates, `m·n = S_u × S_v`, orthogonal to `S_u` and `S_v`.
+    `m ≥ 0`: the call is refused exactly when `S_u × S_v = 0`. -/
+theorem normalized_normal_rational_surface_on_domain (pu pv : ℕ) (Uu Uv : ℕ → F) (su sv : ℕ) (Pw : List (List F))
+    (u v : F) (hUu : KnotsOk pu Uu su) (hUv : KnotsOk pv Uv sv) (hlen : Pw.length = su * sv) (hP : NetOk (3+1) Pw)
+    (hu1 : Uu pu ≤ u) (hu2 : u ≤ Uu su) (hv1 : Uv pv ≤ v) (hv2 : v ≤ Uv sv)
+    (κu κv : ℕ) (hκu : κu = findSpanLinear pu Uu su u) (hκv : κv = findSpanLinear pv Uv sv v)
+    (Su Sv : ℕ → F)
+    (hSu : ∀ c, Su c = (tangentSurface (ratSurfaceDers (surfaceDersA36 pu pv Uu Uv sv Pw κu κv u v 1) 1)).2.1.getD c 0)
+    (hSv : ∀ c, Sv c = (tangentSurface (ratSurfaceDers (surfaceDersA36 pu pv Uu Uv sv Pw κu κv u v 1) 1)).2.2.getD c 0)
+    (m : F)
+    (hmm : m * m = Lin.normSq [Su 1 * Sv 2 - Su 2 * Sv 1, Su 2 * Sv 0 - Su 0 * Sv 2, Su 0 * Sv 1 - Su 1 * Sv 0]) :
+    (0 < m → ∃ n, normalSurfaceN (ratSurfaceDers (surfaceDersA36 pu pv Uu Uv sv Pw κu κv u v 1) 1) m
+        = some ((tangentSurface (ratSurfaceDers (surfaceDersA36 pu pv Uu Uv sv Pw κu κv u v 1) 1)).1, n) ∧
+      Lin.normSq n = 1 ∧ n.length = 3 ∧
+      m * n.getD 0 0 = Su 1 * Sv 2 - Su 2 * Sv 1 ∧ m * n.getD 1 0 = Su 2 * Sv 0 - Su 0 * Sv 2 ∧
+      m * n.getD 2 0 = Su 0 * Sv 1 - Su 1 * Sv 0 ∧
+      n.getD 0 0 * Su 0 + n.getD 1 0 * Su 1 + n.getD 2 0 * Su 2 = 0 ∧
+      n.getD 0 0 * Sv 0 + n.getD 1 0 * Sv 1 + n.getD 2 0 * Sv 2 = 0) ∧
+    (0 ≤ m → (normalSurfaceN (ratSurfaceDers (surfaceDersA36 pu pv Uu Uv sv Pw κu κv u v 1) 1) m = none ↔
+      Su 1 * Sv 2 - Su 2 * Sv 1 = 0 ∧ Su 2 * Sv 0 - Su 0 * Sv 2 = 0 ∧ Su 0 * Sv 1 - Su 1 * Sv 0 = 0)) :=
+  normalSurfaceN_rational_domain pu pv Uu Uv su sv Pw u v hUu hUv hlen hP hu1 hu2 hv1 hv2 κu κv hκu hκv Su Sv hSu hSv
+    m hmm
+
 end ordered
+
+/-! ### over `ℝ`: the rational tangent vectors are derivatives in the sense of analysis -/
+
+/-- **Real rational curves.**  Over `ℝ` Mathlib's `HasDerivAt` is available: the function `x ↦ A(x) / w(x)` (numerator and
+    weight polynomial of the span found; the curve coincides with it on that span) has at `u` the value and the derivative
+    that `operations.tangent` returns (op `tanc 1 …`).  At a knot: the piece to the right; at the right end of the
+    domain: the piece to the left. -/
+theorem rational_tangent_is_derivative_of_quotient_real (p d : ℕ) (Ul : List ℝ) (Pw : List (List ℝ))
+    (hC : CurveWF p (d+1) Ul Pw) (hwt : ∀ i, i < Pw.length → 0 < (ptsGet Pw i).getD d 0) (u : ℝ)
+    (h1 : fnOf Ul p ≤ u) (h2 : u ≤ fnOf Ul Pw.length) (j : ℕ) (hj : j < d)
+    (κ : ℕ) (hκ : κ = findSpanLinear p (fnOf Ul) Pw.length u) (w A : ℝ[X])
+    (hw : w = spanPoly p (fnOf Ul) Pw κ d) (hA : A = spanPoly p (fnOf Ul) Pw κ j) :
+    (tangentCurve (ratCurveDers (curveDersA32 p (fnOf Ul) Pw κ u 1))).1.getD j 0 = eval u A / eval u w ∧
+    HasDerivAt (fun x => eval x A / eval x w)
+      ((tangentCurve (ratCurveDers (curveDersA32 p (fnOf Ul) Pw κ u 1))).2.getD j 0) u :=
+  tangentCurve_rational_hasDerivAt p d Ul Pw hC hwt u h1 h2 j hj κ hκ w A hw hA
+
+/-- **Real rational surfaces.**  The vectors `S_u`, `S_v` of `operations.tangent` (op `tans 1 …`) are the derivatives of the
+    partial functions `x ↦ A(x, v) / W(x, v)` at `u` and `y ↦ A(u, y) / W(u, y)` at `v`; the point is `A(u,v) / W(u,v)`. -/
+theorem rational_surface_tangents_are_partial_derivatives_of_quotient_real (pu pv : ℕ) (Uu Uv : ℕ → ℝ) (su sv : ℕ)
+    (Pw : List (List ℝ)) (u v : ℝ) (d c : ℕ) (hUu : KnotsOk pu Uu su) (hUv : KnotsOk pv Uv sv)
+    (hlen : Pw.length = su * sv) (hP : NetOk (d+1) Pw) (hwt : ∀ i, i < Pw.length → 0 < (ptsGet Pw i).getD d 0)
+    (hu1 : Uu pu ≤ u) (hu2 : u ≤ Uu su) (hv1 : Uv pv ≤ v) (hv2 : v ≤ Uv sv) (hc : c < d)
+    (κu κv : ℕ) (hκu : κu = findSpanLinear pu Uu su u) (hκv : κv = findSpanLinear pv Uv sv v) (W A : ℝ[X][Y])
+    (hW : W = surfSpanPoly pu pv Uu Uv sv Pw κu κv d) (hA : A = surfSpanPoly pu pv Uu Uv sv Pw κu κv c) :
+    (tangentSurface (ratSurfaceDers (surfaceDersA36 pu pv Uu Uv sv Pw κu κv u v 1) 1)).1.getD c 0
+      = A.evalEval u v / W.evalEval u v ∧
+    HasDerivAt (fun x => A.evalEval x v / W.evalEval x v)
+      ((tangentSurface (ratSurfaceDers (surfaceDersA36 pu pv Uu Uv sv Pw κu κv u v 1) 1)).2.1.getD c 0) u ∧
+    HasDerivAt (fun y => A.evalEval u y / W.evalEval u y)
+      ((tangentSurface (ratSurfaceDers (surfaceDersA36 pu pv Uu Uv sv Pw κu κv u v 1) 1)).2.2.getD c 0) v :=
+  tangentSurface_rational_hasDerivAt pu pv Uu Uv su sv Pw u v d c hUu hUv hlen hP hwt hu1 hu2 hv1 hv2 hc κu κv hκu hκv
+    W A hW hA
 
 /-! ### the hypotheses are satisfiable: a concrete rational surface
 
@@ -963,6 +1236,114 @@ example : (ratCurveDers (curveDersA32 2 (fnOf rcU) rcPw 3 1 2)).getD 2 [] = [-70
 /-- normalisation: `[3, 4]` with magnitude `5` -/
 example : Lin.normSq ([3/5, 4/5] : List ℚ) = 1 :=
   (normalized_vector_has_unit_length [3, 4] [3/5, 4/5] 5 (by decide +kernel) (by decide +kernel)).1
+
+/-! #### rational tangent / normal, `normalize=True`: concrete rational data (weights not all 1) -/
+
+/-- the rational curve tangent theorem at the interior KNOT `u = 1/2` of `rcU` (weights `1, 2, 1/2, 3`), coordinate 1 -/
+example :
+    0 < eval (1/2 : ℚ) (spanPoly 2 (fnOf rcU) rcPw 3 2) ∧
+    (tangentCurve (ratCurveDers (curveDersA32 2 (fnOf rcU) rcPw 3 (1/2) 1))).1.getD 1 0
+      = eval (1/2) (spanPoly 2 (fnOf rcU) rcPw 3 1) / eval (1/2) (spanPoly 2 (fnOf rcU) rcPw 3 2) ∧
+    (tangentCurve (ratCurveDers (curveDersA32 2 (fnOf rcU) rcPw 3 (1/2) 1))).2.getD 1 0
+      = (eval (1/2) (derivative (spanPoly 2 (fnOf rcU) rcPw 3 1)) * eval (1/2) (spanPoly 2 (fnOf rcU) rcPw 3 2)
+          - eval (1/2) (spanPoly 2 (fnOf rcU) rcPw 3 1) * eval (1/2) (derivative (spanPoly 2 (fnOf rcU) rcPw 3 2)))
+        / eval (1/2) (spanPoly 2 (fnOf rcU) rcPw 3 2) ^ 2 :=
+  rational_tangent_is_quotient_rule 2 2 rcU rcPw rc_wf rc_weights (1/2) (by decide +kernel) (by decide +kernel) 1
+    (by omega) 3 (by decide +kernel) _ _ rfl rfl
+/-- … the op `tanc 1 …` answers the point `(6/5, 8/5)` and the non-zero vector `(32/25, -64/25)` there -/
+example : tangentCurve (ratCurveDers (curveDersA32 2 (fnOf rcU) rcPw 3 (1/2) 1)) = ([6/5, 8/5], [32/25, -64/25]) := by
+  decide +kernel
+
+/-- the rational surface tangent theorem on the witness surface `exP` (weights `1,1,2,1,1,1`) at `(1/3, 1/2)`, coordinate 2 -/
+example :
+    0 < (surfSpanPoly 2 1 exU exV 2 exP 2 1 3).evalEval (1/3) (1/2) ∧
+    (tangentSurface (ratSurfaceDers (surfaceDersA36 2 1 exU exV 2 exP 2 1 (1/3) (1/2) 1) 1)).1.getD 2 0
+      = (surfSpanPoly 2 1 exU exV 2 exP 2 1 2).evalEval (1/3) (1/2)
+        / (surfSpanPoly 2 1 exU exV 2 exP 2 1 3).evalEval (1/3) (1/2) ∧
+    (tangentSurface (ratSurfaceDers (surfaceDersA36 2 1 exU exV 2 exP 2 1 (1/3) (1/2) 1) 1)).2.1.getD 2 0
+      = ((pderivU (surfSpanPoly 2 1 exU exV 2 exP 2 1 2)).evalEval (1/3) (1/2)
+            * (surfSpanPoly 2 1 exU exV 2 exP 2 1 3).evalEval (1/3) (1/2)
+          - (surfSpanPoly 2 1 exU exV 2 exP 2 1 2).evalEval (1/3) (1/2)
+            * (pderivU (surfSpanPoly 2 1 exU exV 2 exP 2 1 3)).evalEval (1/3) (1/2))
+        / (surfSpanPoly 2 1 exU exV 2 exP 2 1 3).evalEval (1/3) (1/2) ^ 2 ∧
+    (tangentSurface (ratSurfaceDers (surfaceDersA36 2 1 exU exV 2 exP 2 1 (1/3) (1/2) 1) 1)).2.2.getD 2 0
+      = ((pderivV (surfSpanPoly 2 1 exU exV 2 exP 2 1 2)).evalEval (1/3) (1/2)
+            * (surfSpanPoly 2 1 exU exV 2 exP 2 1 3).evalEval (1/3) (1/2)
+          - (surfSpanPoly 2 1 exU exV 2 exP 2 1 2).evalEval (1/3) (1/2)
+            * (pderivV (surfSpanPoly 2 1 exU exV 2 exP 2 1 3)).evalEval (1/3) (1/2))
+        / (surfSpanPoly 2 1 exU exV 2 exP 2 1 3).evalEval (1/3) (1/2) ^ 2 :=
+  rational_surface_tangent_is_quotient_rule 2 1 exU exV 3 2 exP (1/3) (1/2) 3 2 exU_knotsOk exV_knotsOk rfl exP_ok
+    exP_weights (by decide +kernel) (by decide +kernel) (by decide +kernel) (by decide +kernel) (by omega)
+    2 1 (by decide +kernel) (by decide +kernel) _ _ rfl rfl
+/-- … what the ops `tans 1 …` / `nrms 1 …` answer there: point, `S_u`, `S_v`, and the non-zero normal -/
+example : tangentSurface (ratSurfaceDers (surfaceDersA36 2 1 exU exV 2 exP 2 1 (1/3) (1/2) 1) 1)
+      = ([6/11, 9/22, 1/2], [180/121, -27/242, 9/22], [24/121, 117/121, 5/11]) ∧
+    normalSurface (ratSurfaceDers (surfaceDersA36 2 1 exU exV 2 exP 2 1 (1/3) (1/2) 1) 1)
+      = some ([6/11, 9/22, 1/2], [-54/121, -72/121, 1944/1331]) := by decide +kernel
+/-- the rational normal theorem, instantiated there -/
+example : ∃ n, normalSurface (ratSurfaceDers (surfaceDersA36 2 1 exU exV 2 exP 2 1 (1/3) (1/2) 1) 1)
+      = some ((tangentSurface (ratSurfaceDers (surfaceDersA36 2 1 exU exV 2 exP 2 1 (1/3) (1/2) 1) 1)).1, n) ∧
+      n.length = 3 := by
+  obtain ⟨n, h, hn, _⟩ := normal_rational_surface_on_domain 2 1 exU exV 3 2 exP (1/3) (1/2) exU_knotsOk exV_knotsOk rfl
+    exP_ok (by decide +kernel) (by decide +kernel) (by decide +kernel) (by decide +kernel) 2 1 (by decide +kernel)
+    (by decide +kernel) _ _ (fun _ => rfl) (fun _ => rfl)
+  exact ⟨n, h, by rw [hn]; rfl⟩
+
+/-- `normalize=True`, exact root: the rational segment `rtLPw` (weights `1, 2`) has the tangent `(6, 8)` at `u = 0`, of
+    length exactly `10`; the op `tancn 1 …  0 10` answers the point and `(3/5, 4/5)` -/
+example : tangentCurve (ratCurveDers (curveDersA32 1 (fnOf rtLU) rtLPw 1 0 1)) = ([0, 0], [6, 8]) ∧
+    tangentCurveN (ratCurveDers (curveDersA32 1 (fnOf rtLU) rtLPw 1 0 1)) 10 = some ([0, 0], [3/5, 4/5]) := by
+  decide +kernel
+/-- … the end-to-end theorem instantiated on it (coordinate 1) -/
+example : ∃ pt n, tangentCurveN (ratCurveDers (curveDersA32 1 (fnOf rtLU) rtLPw 1 0 1)) 10 = some (pt, n) ∧
+      Lin.normSq n = 1 ∧ 0 < eval (0 : ℚ) (spanPoly 1 (fnOf rtLU) rtLPw 1 2) ∧
+      eval 0 (spanPoly 1 (fnOf rtLU) rtLPw 1 2) * pt.getD 1 0 = eval 0 (spanPoly 1 (fnOf rtLU) rtLPw 1 1) ∧
+      eval 0 (spanPoly 1 (fnOf rtLU) rtLPw 1 2) * (10 * n.getD 1 0)
+          + eval 0 (derivative (spanPoly 1 (fnOf rtLU) rtLPw 1 2)) * pt.getD 1 0
+        = eval 0 (derivative (spanPoly 1 (fnOf rtLU) rtLPw 1 1)) :=
+  normalized_tangent_rational_curve_on_domain 1 2 rtLU rtLPw rtL_wf rtL_weights 0 (by decide +kernel)
+    (by decide +kernel) 1 (by omega) 1 (by decide +kernel) _ _ rfl rfl 10 (by decide +kernel) (by decide +kernel)
+/-- `normalize=True`, refusal: the first two control points of the rational quadratic `rtZPw` (weights `1, 2, 1`)
+    coincide, the tangent at `u = 0` is the zero vector, its magnitude `0`, and the op `tancn` answers `ERR` -/
+example : (tangentCurve (ratCurveDers (curveDersA32 2 (fnOf rtZU) rtZPw 2 0 1))).2 = [0, 0] ∧
+    tangentCurveN (ratCurveDers (curveDersA32 2 (fnOf rtZU) rtZPw 2 0 1)) 0 = none := by decide +kernel
+example : tangentCurveN (ratCurveDers (curveDersA32 2 (fnOf rtZU) rtZPw 2 0 1)) 0 = none :=
+  (tangent_curve_normalized_refused_iff_zero_derivative _ 0 (by decide +kernel) (le_refl _)).mpr (by decide +kernel)
+
+/-- `normalize=True` on the rational bilinear patch `rtSPw` (weights `1, 3, 2, 1/2`) at the corner `(0, 0)`:
+    `S_u = (6, 8, 0)`, `S_v = (0, 0, 15)`, `S_u × S_v = (120, -90, 0)` of lengths exactly `10`, `15`, `150`; what the ops
+    `tansn 1 … 10 15` and `nrmsn 1 … 150` answer -/
+example : tangentSurfaceN (ratSurfaceDers (surfaceDersA36 1 1 (fnOf rtSU) (fnOf rtSU) 2 rtSPw 1 1 0 0 1) 1) 10 15
+      = some ([0, 0, 0], [3/5, 4/5, 0], [0, 0, 1]) ∧
+    normalSurfaceN (ratSurfaceDers (surfaceDersA36 1 1 (fnOf rtSU) (fnOf rtSU) 2 rtSPw 1 1 0 0 1) 1) 150
+      = some ([0, 0, 0], [4/5, -3/5, 0]) := by decide +kernel
+/-- … the end-to-end normal theorem instantiated on it (`m = 150`) -/
+example : ∃ n, normalSurfaceN (ratSurfaceDers (surfaceDersA36 1 1 (fnOf rtSU) (fnOf rtSU) 2 rtSPw 1 1 0 0 1) 1) 150
+      = some ((tangentSurface (ratSurfaceDers (surfaceDersA36 1 1 (fnOf rtSU) (fnOf rtSU) 2 rtSPw 1 1 0 0 1) 1)).1, n) ∧
+      Lin.normSq n = 1 ∧ n.length = 3 := by
+  obtain ⟨n, h, hu, hl, _⟩ := (normalized_normal_rational_surface_on_domain 1 1 (fnOf rtSU) (fnOf rtSU) 2 2 rtSPw 0 0
+    rtSU_knotsOk rtSU_knotsOk rfl rtSPw_ok (by decide +kernel) (by decide +kernel) (by decide +kernel)
+    (by decide +kernel) 1 1 (by decide +kernel) (by decide +kernel) _ _ (fun _ => rfl) (fun _ => rfl) 150
+    (by decide +kernel)).1 (by decide +kernel)
+  exact ⟨n, h, hu, hl⟩
+/-- … and the end-to-end tangent theorem (`mu = 10`, `mv = 15`, coordinate 0) -/
+example : ∃ pt nu nv,
+      tangentSurfaceN (ratSurfaceDers (surfaceDersA36 1 1 (fnOf rtSU) (fnOf rtSU) 2 rtSPw 1 1 0 0 1) 1) 10 15
+        = some (pt, nu, nv) ∧ Lin.normSq nu = 1 ∧ Lin.normSq nv = 1 ∧
+      0 < (surfSpanPoly 1 1 (fnOf rtSU) (fnOf rtSU) 2 rtSPw 1 1 3).evalEval 0 0 := by
+  obtain ⟨pt, nu, nv, h, hnu, hnv, hpos, _⟩ := normalized_tangent_rational_surface_on_domain 1 1 (fnOf rtSU) (fnOf rtSU)
+    2 2 rtSPw 0 0 3 0 rtSU_knotsOk rtSU_knotsOk rfl rtSPw_ok rtSPw_weights (by decide +kernel) (by decide +kernel)
+    (by decide +kernel) (by decide +kernel) (by omega) 1 1 (by decide +kernel) (by decide +kernel) _ _ rfl rfl 10 15
+    (by decide +kernel) (by decide +kernel) (by decide +kernel) (by decide +kernel)
+  exact ⟨pt, nu, nv, h, hnu, hnv, hpos⟩
+
+/-- the `HasDerivAt` theorem over `ℝ`, instantiated: the rational quadratic with weights `1, 2, 1/2, 3` at the knot
+    `u = 1/2` (any span index `κ` equal to the one the search finds) -/
+example (κ : ℕ) (hκ : κ = findSpanLinear 2 (fnOf rcUR) rcPwR.length (1/2)) :
+    HasDerivAt (fun x => eval x (spanPoly 2 (fnOf rcUR) rcPwR κ 0) / eval x (spanPoly 2 (fnOf rcUR) rcPwR κ 2))
+      ((tangentCurve (ratCurveDers (curveDersA32 2 (fnOf rcUR) rcPwR κ (1/2) 1))).2.getD 0 0) (1/2) :=
+  (rational_tangent_is_derivative_of_quotient_real 2 2 rcUR rcPwR rcR_wf rcR_weights (1/2) rcR_dom.1 rcR_dom.2 0
+    (by omega) κ hκ _ _ rfl rfl).2
 end witness
 
 
